@@ -93,6 +93,21 @@ def trace_job(args):
         if len(refs) < owed:
             r.violations.append(dict(signature="c04-starved", what="%s 1:%d: only %d refreshes in %d cycles (tREFI=%d, postponing=%d): at least %d are due"
                                      % (cfg["memtype"], cfg["nphases"], len(refs), total, t["tREFI"], post, owed), replay=dict(tag, refs=refs)))
+        # the refresh handshake itself, on the implementation: the longest wait of the refresher for the bus against the
+        # proved bound of C04.refresh_grant_bound (psiMax, evaluated by the driver) and against the tight constant D
+        run = longest = 0
+        for k, wv in enumerate(cs["rfwait"]):
+            run = run + 1 if wv else 0
+            if run > longest:
+                longest = run; at = k
+        r.evaluations += 1
+        bucket = lambda v, edges: next(("<=%d" % e for e in edges if v <= e), ">%d" % edges[-1])
+        r.coverage["grant_latency_longest_wait_cycles"] = {bucket(longest, [4, 8, 16, 32, 64, 128]): 1}
+        r.coverage["grant_latency_percent_of_proved_bound_psiMax"] = {bucket(100 * longest // max(1, cs["psimax"]), [5, 10, 25, 50, 100]): 1}
+        r.coverage["grant_latency_percent_of_tight_bound_D"] = {bucket(100 * longest // max(1, D), [10, 25, 50, 75, 100]): 1}
+        if longest > min(D, cs["psimax"]) and not r.violations:
+            r.violations.append(dict(signature="c04-grant-latency", what="%s 1:%d: the refresher waited %d cycles for the bus (up to cycle %d); bound D = %d, proved bound psiMax = %d"
+                                     % (cfg["memtype"], cfg["nphases"], longest, at, D, cs["psimax"]), replay=dict(tag, wait_run_end=at)))
         r.coverage["max_refresh_lateness_cycles"] = worst
         r.coverage["refreshes"] = len(refs)
         if t["tZQCS"] is not None:
